@@ -70,6 +70,73 @@ def edit(elab, items, specs):
     return items
 
 
+def _code_stream(ctx, used_specs):
+    """real ExtendedConfigLoader.addOption / OptionBag.basic_key / _normalize_case vs the GENERATED code (translation of
+    cmdline.py's source by harness/zcv/pytrans.py, run by the second driver zcdrv2): every specifier the run used, all strings
+    up to length 5 over {a B / = space 1}, random specifiers.  'generated code = model' is a theorem (Lemmas/CodeEqCmdline.lean);
+    this validates the translator and the primitives of ZCV/Py.lean."""
+    import io
+    import ZConfig
+    from ZConfig.cmdline import ExtendedConfigLoader, OptionBag
+    from .. import util
+    from ..sexp import Atom
+    if not core.ensure_driver2(ctx.tie):
+        ctx.notes.append("zcdrv2 (generated code) could not be built: the code-translation tie is broken; other streams unaffected")
+        ctx.cov["generated_code_stream"] = "driver unavailable"
+        return
+    schema = ZConfig.loadSchemaFile(io.StringIO("<schema/>"))
+    specs = list(dict.fromkeys(list(used_specs) + ["a=b", "a/b/c=d", "a=", "a=b=c", "novalue", "a//b=1", "/a=1", "a/=1", "=1", "", "//=",
+                                                   "A.b-c/d_e=x y", "é/ß=İ", "a=\n", "a\t/b = c"]
+                               + list(util.enum_strings("aB/= 1", 5))
+                               + ["".join(ctx.rng.choice("abC/=.-_ 1é") for _ in range(ctx.rng.randint(1, 16))) for _ in range(3000)]))
+    n = 0
+
+    def real_add(spec, pos):
+        ld = ExtendedConfigLoader(schema)
+        try:
+            if pos is None:
+                ld.addOption(spec)
+            else:
+                ld.addOption(spec, pos)
+            path, val, p = ld.clopts[-1]
+            return ["ok", ["tup", ["list"] + [["s", x] for x in path], ["s", val], ["tup", ["s", p[0]], ["i", str(p[1])], ["i", str(p[2])]]]]
+        except ZConfig.ConfigurationSyntaxError as e:
+            return ["err", ["cfgsyntax", e.url, str(e.lineno), str(e.colno), getattr(e, "specifier", "none")]]
+        except Exception as e:
+            return ["exc", type(e).__name__]
+    for op, pos in (("addOption", None), ("addOption-pos", ("u", 3, 4))):
+        ans = core.driver_batch([[Atom("code"), op, sp] for sp in specs], exe=core.DRIVER2)
+        for sp, a in zip(specs, ans):
+            r = real_add(sp, pos)
+            n += 1
+            if [a[0], a[1]] != r:
+                ctx.disagree("generated-code:" + op, sp, r, a)
+    bag = OptionBag(schema, schema, [])
+    keys = list(dict.fromkeys([c for sp in specs[:4000] for c in sp.split("=", 1)[0].split("/")]))
+    ans = core.driver_batch([[Atom("code"), "bag-basic-key", k] for k in keys], exe=core.DRIVER2)
+    for k, a in zip(keys, ans):
+        if "İ" in k or "Σ" in k:
+            continue
+        try:
+            r = ["ok", ["s", bag.basic_key(k, ("u", 3, 4))]]
+        except ZConfig.ConfigurationSyntaxError as e:
+            r = ["err", ["cfgsyntax", e.url, str(e.lineno), str(e.colno), getattr(e, "specifier", "none")]]
+        except Exception as e:
+            r = ["exc", type(e).__name__]
+        n += 1
+        if [a[0], a[1]] != r:
+            ctx.disagree("generated-code:bag-basic-key", k, r, a)
+    ans = core.driver_batch([[Atom("code"), "bag-normalize-case", k] for k in keys], exe=core.DRIVER2)
+    for k, a in zip(keys, ans):
+        if "İ" in k or "Σ" in k:
+            continue
+        n += 1
+        if a != ["ok", ["s", bag._normalize_case(k)]]:
+            ctx.disagree("generated-code:bag-normalize-case", k, bag._normalize_case(k), a)
+    ctx.evaluations += n
+    ctx.cov["generated_code_stream"] = {"functions": ["addOption", "OptionBag.basic_key", "OptionBag._normalize_case"], "evaluations": n}
+
+
 def run(ctx):
     obligations, discharged, names = core.standard_prelude(ctx, ["ZCV.Props.C14"])
     n_s, n_t = (700, 40) if ctx.thorough() else (52, 20)
@@ -182,6 +249,7 @@ def run(ctx):
             if got != ok:
                 ctx.violate("addOption(%r): %s" % (spec, "accepted" if got is True else "refused" if got is False else got),
                             {"spec": spec, "expected_accepted": ok}, signature="C14:spec-syntax:%s" % spec)
+    _code_stream(ctx, [sp for a in ov for sp in a.overrides])
     if ov:
         ctx.sample({"lines": ov[0].lines, "overrides": ov[0].overrides, "edited": ed[0].lines, "outcome": ov[0].out[:2]})
     return core.finish(ctx, obligations, discharged, names, RULE,
